@@ -83,8 +83,8 @@ def random_programs(n, seed, S=5, length=14):
             empties = [j for j in range(1, S + 1) if j not in kind]
             j = rng.choice(empties + [i]) if empties else i
             if kind[i] == "L":
-                op = rng.choice(["With", "With", "Hook", "Level", "Output", "Emit", "Update", "Drop", "Emit"])
-                if op == "Update":
+                op = rng.choice(["With", "With", "Hook", "Level", "Level", "Output", "Emit", "Update", "UpdateReset", "Drop", "Emit"])
+                if op in ("Update", "UpdateReset"):
                     if not fresh.get(i):
                         op = "Emit"
                 if op == "Drop":
@@ -97,9 +97,9 @@ def random_programs(n, seed, S=5, length=14):
                 if op == "Emit":
                     steps.append({"op": "Emit", "i": i, "j": i, "a": 0})
                     continue
-                if op == "Update":
+                if op in ("Update", "UpdateReset"):
                     nf += 1
-                    steps.append({"op": "Update", "i": i, "j": i, "a": nf})
+                    steps.append({"op": op, "i": i, "j": i, "a": nf})
                     continue
                 a = 0
                 if op == "Hook":
